@@ -130,8 +130,11 @@ class MemoryStorageBackend(StorageBackend):
         )
 
     def list_functions(self) -> List[FunctionReference]:
+        # self.mementos is a defaultdict: look-ups and forgets leave empty entries behind
         return [
-            FunctionReference.from_qualified_name(key) for key in self.mementos.keys()
+            FunctionReference.from_qualified_name(key)
+            for (key, memento_dict) in list(self.mementos.items())
+            if memento_dict
         ]
 
     def list_mementos(self, fn: FunctionReference, limit: int = None) -> List[Memento]:
